@@ -120,3 +120,58 @@ func VerifC06_attester_arbitrary() {
 	vAssert(cache.puts == 0, "rejected-request-leaves-cache-untouched")
 	vReach("checked")
 }
+
+// a rejected call leaves no trace in the attester: whatever was refused before (here a request
+// whose signature has the wrong length, the earliest rejection point after the key is decoded, or
+// one with a wrong signature), the next authentic request is accepted and the next inauthentic
+// one is still refused
+func VerifC06_attester_rejected_call_leaves_no_trace() {
+	vUnwind(40)
+	vUseModels("ecapi")
+	issuer := t3Issuer("a")
+	var secrets [][]byte
+	mk := func(tag string) (RateLimitedTokenRequestState, []byte) {
+		secret := vBytes("client_secret"+tag, 48, 48)
+		vAssume(secret[0] != 0)
+		secrets = append(secrets, secret)
+		blind := vBytes("blind"+tag, 48, 48)
+		vAssume(blind[0] != 0)
+		st, err := NewRateLimitedClientFromSecret(secret).CreateTokenRequest(vBytesC("challenge"+tag, 0, 0), vBytes("nonce"+tag, 32, 32), blind, issuer.TokenKeyID(), issuer.TokenKey(), "a", issuer.NameKey())
+		vAssume(err == nil)
+		return st, blind
+	}
+	st1, blind1 := mk("1")
+	st2, blind2 := mk("2")
+	// two different clients (signatures made for one request key say nothing about another)
+	vAssume(!vBytesEq(secrets[0], secrets[1]))
+	vAssume(!vBytesEq(st1.Request().RequestKey, st2.Request().RequestKey))
+	anon := vBytes("anon_origin", 8, 8)
+	cache := &c06Cache{m: map[string]*ClientState{}}
+	attester := NewRateLimitedAttester(cache)
+
+	bad := *st1.Request()
+	switch vSplit(vInt("first_rejection", 0, 3), 0, 3) {
+	case 0:
+		bad.Signature = bad.Signature[:95]
+	case 1:
+		bad.Signature = append(append([]byte{}, bad.Signature...), vByte("extra"))
+	case 2:
+		bad.Signature = []byte{}
+	default:
+		bad.Signature = c06Other("other_signature", bad.Signature)
+	}
+	vAssert(attester.VerifyRequest(bad, blind1, st1.ClientKey(), anon) != nil, "malformed-request-rejected")
+	vAssert(cache.puts == 0, "rejected-request-leaves-cache-untouched")
+
+	if vBool("second_is_authentic") {
+		vAssert(attester.VerifyRequest(*st2.Request(), blind2, st2.ClientKey(), anon) == nil, "authentic-request-accepted-after-a-rejected-one")
+		vAssert(cache.puts == 1, "accepted-request-creates-state")
+		vReach("then-authentic")
+	} else {
+		forged := *st2.Request()
+		forged.Signature = c06Other("forged_signature", forged.Signature)
+		vAssert(attester.VerifyRequest(forged, blind2, st2.ClientKey(), anon) != nil, "inauthentic-request-rejected-after-a-rejected-one")
+		vAssert(cache.puts == 0, "second-rejected-request-leaves-cache-untouched")
+		vReach("then-inauthentic")
+	}
+}
